@@ -980,7 +980,11 @@ def _normalize_limit(
     elif isinstance(limit, RationalLikeMixedT):
         normalized_limit = Fraction(numerator(limit), denominator(limit))
     elif isinstance(limit, RealLike):
-        normalized_limit = Fraction(float(limit))
+        try:
+            normalized_limit = Fraction(float(limit))
+        except OverflowError:
+            # E.g., float("inf")
+            raise ValueError("fractional limit must be between zero and one, exclusive")
     else:
         raise TypeError(f"unrecognized limit type {limit}")
 
